@@ -147,7 +147,7 @@ def run_harness(ctx, mode, cases, tag=""):
         return [json.loads(l) for l in f if l.strip()]
 
 
-def tlc_validate(ctx, module, records, env_extra, workers=None, timeout=3000):
+def tlc_validate(ctx, module, records, env_extra, workers=None, timeout=None):
     """Validate trace records with a trace specification; returns verdict dicts."""
     if not records:
         return []
@@ -159,7 +159,7 @@ def tlc_validate(ctx, module, records, env_extra, workers=None, timeout=3000):
            "VERIF_PROP": ctx.prop, "VERIF_HTCAP": 6 if ctx.quick() else 8, "VERIF_CLCAP": 10 if ctx.quick() else 12,
            "VERIF_FULLHT": "0" if ctx.quick() else "1"}
     env.update(env_extra or {})
-    vals, _ = run_tlc(ctx, module, module + ".cfg", env, workers=workers or min(NCPU, 12), timeout=timeout)
+    vals, _ = run_tlc(ctx, module, module + ".cfg", env, workers=workers or min(NCPU, 12), timeout=timeout or (3000 if ctx.quick() else 12000))
     return vals
 
 
